@@ -180,6 +180,8 @@ class Scenario:
     def add_cand(s, addr, val, tid):
         """val: concrete int or 'TOP' (unknown symbolic data); tid = writer thread"""
         c = s.cand.setdefault(addr, {})
+        if val != 'TOP' and val not in c and len(c) >= 12:
+            val = 'TOP'            # widening: counters and the like would otherwise grow by one value per fixpoint pass
         w = c.setdefault(val, set())
         if tid not in w:
             w.add(tid); s.changed = True
@@ -1328,9 +1330,13 @@ class ThreadRun:
 
 def z3_vars(e):
     out = {}
+    seen = set()
     def walk(x):
-        if z3.is_const(x) and x.decl().kind() == z3.Z3_OP_UNINTERPRETED:
-            out[x.decl().name()] = x
+        i = x.get_id()
+        if i in seen: return
+        seen.add(i)
+        if z3.is_const(x):
+            if x.decl().kind() == z3.Z3_OP_UNINTERPRETED: out[x.decl().name()] = x
         else:
             for c in x.children(): walk(c)
     if not isinstance(e, int): walk(e)
@@ -1348,7 +1354,11 @@ def z3_is_simple(e):
 
 def z3_consts(e):
     out = set()
+    seen = set()
     def walk(x):
+        i = x.get_id()
+        if i in seen: return
+        seen.add(i)
         if z3.is_bv_value(x):
             out.add(x.as_long())
         else:
